@@ -891,7 +891,8 @@ def compare_forms(g: "GVN", a: Form, b: Form) -> str:
                     out.add(x)
         return frozenset(out)
 
-    contr = {"einsum", "matmul"}
+    # ... and so is a full contraction written as sum(a * b), trace(a @ b.T) or einsum("ij,ij->")
+    contr = {"einsum", "matmul", "trace", "prod", "diag", "diagonal"}
     if da and db and (ka & contr) != (kb & contr) and leaves(da) == leaves(db):
         return "undecided"
     return "differ"
